@@ -110,6 +110,7 @@ def _work(item):
             finally:
                 signal.alarm(0)
             for one in _norm_fail(sub, case, r):
+                one['shard'] = [si, unit, k, n, i]
                 # known findings are matched here, so that the storage cap applies to unlisted failures only
                 for e in kentries:
                     if _findings.match(e, prop, one):
@@ -143,7 +144,8 @@ def write_replay(prop, tier, fl):
     path = os.path.join(d, '%s.json' % _digest(fl))
     with open(path, 'w') as f:
         json.dump({'property': prop, 'tier': tier, 'sub': fl['sub'], 'case': fl['case'],
-                   'msg': fl['msg'], 'expected': fl['expected'], 'actual': fl['actual']},
+                   'msg': fl['msg'], 'expected': fl['expected'], 'actual': fl['actual'],
+                   'shard': fl.get('shard'), 'mode': fl.get('mode', 'case')},
                   f, indent=1, default=str, sort_keys=True)
     return path
 
@@ -158,8 +160,23 @@ def replay(prop, path):
         print('replay: unknown sub-check %r' % rec['sub'])
         return 2
     env = _get_env()
-    r = _norm_fail(sub, rec['case'], sub.check(env, rec['case']))
-    print('replay %s %s' % (prop, rec['sub']))
+    if rec.get('mode') == 'shard' and rec.get('shard'):
+        # history replay: every case of the shard before the failing one, in order, then the failing one
+        si, unit, k, n, idx = rec['shard']
+        tier = rec.get('tier', 'quick')
+        r = []
+        for i, case in enumerate(sub.cases(tier, unit)):
+            if n > 1 and i % n != k:
+                continue
+            got = sub.check(env, case)
+            if i == idx:
+                r = _norm_fail(sub, case, got)
+                break
+        print('replay %s %s (history: the %d-th case of shard %r/%d of %d, after the cases before it)' % (
+            prop, rec['sub'], idx, unit, k, n))
+    else:
+        r = _norm_fail(sub, rec['case'], sub.check(env, rec['case']))
+        print('replay %s %s' % (prop, rec['sub']))
     print(' case    :', json.dumps(rec['case'], default=str)[:2000])
     if r:
         for x in r[:5]:
@@ -187,6 +204,8 @@ def run(prop, tier):
         for u in units:
             for k in range(n):
                 items.append((prop, si, u, k, n, tier))
+    if hasattr(mod, 'prewarm'):
+        mod.prewarm()       # pure-Python tables computed once here and inherited by the forked workers
     rnd = random.Random(seed)
     rnd.shuffle(items)
     # heavy non-strided items first would be better, but order must only depend on the seed
@@ -194,7 +213,10 @@ def run(prop, tier):
     agg = {}
     harness = []
     khit_all = {}
-    with ctx.Pool(min(jobs, max(1, len(items)))) as pool:
+    # one fresh process per work item (forked from this parent, which never evaluates anything): whatever a
+    # case observes can only depend on the cases before it in the same shard, so a failure that does not
+    # reproduce alone can be replayed faithfully as "the shard up to this case"
+    with ctx.Pool(min(jobs, max(1, len(items))), maxtasksperchild=1) as pool:
         for res in pool.imap_unordered(_work, items, chunksize=1):
             a = agg.setdefault(res['si'], {'cases': 0, 'evals': 0, 'nontrivial': 0, 'classes': {},
                                            'cov': {}, 'nfail': 0, 'fails': [], 'samples': [],
@@ -301,9 +323,20 @@ def run(prop, tier):
         if rc.returncode == 1:
             confirmed += 1
             kept.append((path, fl))
+            continue
+        # not reproducible alone: does it reproduce after the cases that preceded it in its shard?
+        fl2 = dict(fl, mode='shard')
+        fl2['msg'] = ('[only after the earlier cases of the same shard - the outcome depends on what was evaluated '
+                      'before] ' + (fl['msg'] or ''))
+        path2 = write_replay(prop, tier, dict(fl2, case=['history-of'] + [fl['case']]))
+        rc2 = subprocess.run([sys.executable, '-m', 'hxverif.run', prop, '--replay', path2],
+                             cwd=HERE, env=env, stdout=subprocess.PIPE, stderr=subprocess.STDOUT)
+        if rc2.returncode == 1:
+            confirmed += 1
+            kept.append((path2, fl2))
         else:
-            harness.append('verdict did not reproduce in a fresh process (rc=%d), dropped: %s %s' % (
-                rc.returncode, path, (fl['msg'] or '')[:200]))
+            harness.append('verdict did not reproduce in a fresh process (rc=%d, shard replay rc=%d), dropped: %s %s' % (
+                rc.returncode, rc2.returncode, path, (fl['msg'] or '')[:200]))
     if replay_paths and not confirmed:
         nonrepro = True
     replay_paths = kept
